@@ -69,7 +69,7 @@ ADDED2 = {
     'C08': 'seek(2) / seek(5); per-pair calls followed by the bulk call; the empty history by path; pairs accepted before a refused row must survive',
     'C09': 'a refused write before a finalize; write_shapes of nothing; no I/O at an unwinding drop; 255 / 256 / 257 / 512 writes between finalizes; a writer of user-defined NullShape shapes',
     'C10': 'refusals on a file beyond 64 KiB; a refused shape with special values; the path-created writer; a pre-typed ShapeWriter handed to Writer::new',
-    'C11': 'byte-level cuts for every type in the quick tier; large-part workloads for PolylineM, PolygonZ, MultipointZ',
+    'C11': 'byte-level cuts for every type in the quick tier; large-part workloads for PolylineM, PolygonZ, MultipointZ; a sixth workload kind: all shapes through one consuming write_shapes call',
     'C12': 'the complete writer\'s bulk route; the empty history and bulk calls handed nothing; a part of 40 vertices; interrupted seeks (persistent and one-shot)',
     'C13': 'the complete reader under fault enumeration; typed and by-path one-liners on cut files; a seek behind the end; ten error kinds; a cut index that opens must report the cut',
     'C14': 'gaps of 2..4 KiB; null-shape records behind the index; 8193 entries in the quick tier',
